@@ -1,45 +1,34 @@
 (* C02 — no inverter or battery group is commanded outside its power bounds.
    Statements only; every proof is `exact <lemma>` from proofs/Dist*.v.  Same model and vocabulary as props/C01.v.
-   [setpoint_ok gs a]  a = (inverter id, set-point): the set-point is zero, or some inverter of gs with that id has it
-                       inside its inclusion bounds and outside its exclusion zone
-   [group_full g gr]   the total of group g's inverters is inside the aggregated battery inclusion bounds and is zero or
-                       outside the aggregated battery exclusion zone
-   On the unchanged tree C02_no_headroom and C02_group were refuted by corpus/C02/exact_fixed_F2_F3.json
-   (fix commits ccb79d8, fcfd05e). *)
+   All theorems are unconditional on the run and need no admission condition.
+   [setpoint_okx gs a] a = (inverter id, set-point): zero, or some inverter of gs with that id has it inside its inclusion
+                       bounds and not strictly inside (1 - rel_tol) * its exclusion zone (rel_tol = math.isclose's 1e-9:
+                       the minimum-power guard of fix 5d1dfb7 accepts totals that are isclose to the minimum)
+   [setpoint_ok gs a]  the same without the factor (exact)
+   [group_full g gr]   the total of group g's inverters is inside the aggregated battery inclusion bounds and is zero or not
+                       strictly inside (1 - rel_tol) * the aggregated battery exclusion zone
+   On the unchanged tree C02 was refuted by corpus/C02/*.json (fix commits ccb79d8, fcfd05e, 5d1dfb7). *)
 From Coq Require Import QArith List.
-From Verif Require Import gen.DistConst model.Dist proofs.DistFacts proofs.DistBounds proofs.DistTop proofs.DistWitness.
+From Verif Require Import gen.DistConst model.Dist proofs.DistFacts proofs.DistBounds proofs.DistTop proofs.DistRemainder proofs.DistWitness.
 Import ListNotations.
 Open Scope Q_scope.
 
-(* groups with two or more inverters: unconditional on the run *)
-Theorem C02_inverter_multi : forall powf gs p r gr,
+Theorem C02_inverter : forall powf gs p r gr,
+  wf_groups gs -> czero p = false -> distribute powf gs p = Some r -> In gr (res_groups r) ->
+  forall a, In a (gr_sp gr) -> setpoint_okx gs a.
+Proof. exact distribute_inverter. Qed.
+
+(* groups with two or more inverters: exact *)
+Theorem C02_inverter_multi_exact : forall powf gs p r gr,
   wf_groups gs -> czero p = false -> distribute powf gs p = Some r -> In gr (res_groups r) ->
   length (pg_invs (gr_src gr)) <> 1%nat ->
   forall a, In a (gr_sp gr) -> setpoint_ok gs a.
 Proof. exact distribute_inverter_multi. Qed.
 
-(* every inverter; for single-inverter groups the set-point is the group's power, whose lower bound needs side_ok *)
-Theorem C02_inverter_partial : forall powf gs p r gr,
-  wf_groups gs -> czero p = false -> side_ok powf gs p -> distribute powf gs p = Some r -> In gr (res_groups r) ->
-  forall a, In a (gr_sp gr) -> setpoint_ok gs a.
-Proof. exact distribute_inverter_all. Qed.
-
-(* group totals: inside the battery inclusion bounds always; zero or outside the battery exclusion zone when the
-   split over the group's inverters leaves nothing over (always the case for single-inverter groups) *)
-Theorem C02_group_partial : forall powf gs p r gr,
-  wf_groups gs -> czero p = false -> side_ok powf gs p -> distribute powf gs p = Some r -> In gr (res_groups r) ->
-  exists g, In g gs /\ gr_src gr = prepare (supply_of p) powf g /\
-            (let a := aggregate (g_bats g) in a_il a <= sumsp (gr_sp gr) <= a_iu a) /\
-            (gr_left gr == 0 -> group_full g gr).
-Proof. exact distribute_group_partial. Qed.
-
-(* known finding C02-split-leftover: at full strength the group clause is false *)
-Theorem C02_group_refuted :
-  exists gs p r gr g,
-    wf_groups gs /\ admitted gs p /\ side_ok idf gs p /\ distribute idf gs p = Some r /\
-    In gr (res_groups r) /\ In g gs /\ gr_src gr = prepare (supply_of p) idf g /\
-    ~ group_full g gr /\ ~ gr_left gr == 0.
-Proof. exact split_leftover_witness. Qed.
+Theorem C02_group : forall powf gs p r gr,
+  wf_groups gs -> czero p = false -> distribute powf gs p = Some r -> In gr (res_groups r) ->
+  exists g, In g gs /\ gr_src gr = prepare (supply_of p) powf g /\ group_full g gr.
+Proof. exact distribute_group. Qed.
 
 (* a group with no SoC headroom in the requested direction gets zero on every inverter, for every pow function
    with pow(0) = 0, i.e. every exponent > 0 (exponent 0: pow(0, 0) = 1, known finding C02-exponent0-full-battery) *)
@@ -52,7 +41,7 @@ Proof. exact distribute_no_headroom. Qed.
 (* the exponent the BatteryManager passes to the algorithm (constant translated from /repo on every run) is 1,
    for which pow(x) = x and pow(0) = 0: the hypothesis of C02_no_headroom holds for the shipped configuration *)
 Theorem C02_manager_exponent :
-  0 < gen.DistConst.dist_manager_exponent /\ gen.DistConst.dist_manager_exponent == 1 /\ idf 0 == 0.
+  0 < dist_manager_exponent /\ dist_manager_exponent == 1 /\ idf 0 == 0.
 Proof. exact manager_exponent_positive. Qed.
 
 (* every battery group and every inverter of the input appears in the result exactly once *)
@@ -63,15 +52,20 @@ Theorem C02_every_component_has_a_setpoint : forall powf gs p r,
     Permutation.Permutation (map fst (gr_sp gr)) (map pi_id (pg_invs (gr_src gr))).
 Proof. exact distribute_complete. Qed.
 
+(* non-vacuity: a full battery next to a usable one; and the former finding's witness (a group whose inverters cannot
+   realise its minimum power) is now simply not used: all set-points 0, the request returned as remainder *)
 Example C02_nonvacuous :
   wf_groups [ex_full; ex_g1] /\ no_headroom false ex_full /\ admitted [ex_full; ex_g1] 100 /\
-  wf_groups ex_gs /\ (side_ok idf ex_gs 120 /\ side_ok idf ex_gs (-120)).
-Proof. exact (conj ex_full_wf (conj (proj1 ex_full_no_headroom) (conj (proj2 ex_full_no_headroom) (conj ex_wf ex_side_ok)))). Qed.
+  wf_groups [sl_g] /\ admitted [sl_g] 25 /\
+  exists r, distribute idf [sl_g] 25 = Some r /\ (forall a, In a (res_dist r) -> snd a == 0) /\ res_rem r == 25.
+Proof.
+  exact (conj ex_full_wf (conj (proj1 ex_full_no_headroom) (conj (proj2 ex_full_no_headroom)
+        (conj sl_wf (conj (proj1 sl_fixed) (proj2 sl_fixed)))))).
+Qed.
 
-Print Assumptions C02_inverter_multi.
-Print Assumptions C02_inverter_partial.
-Print Assumptions C02_group_partial.
-Print Assumptions C02_group_refuted.
+Print Assumptions C02_inverter.
+Print Assumptions C02_inverter_multi_exact.
+Print Assumptions C02_group.
 Print Assumptions C02_no_headroom.
 Print Assumptions C02_manager_exponent.
 Print Assumptions C02_every_component_has_a_setpoint.
